@@ -75,6 +75,27 @@ def keys_command_lines(rng, tier):
         for nme in names[:8]:      # the name itself as a pattern (escaped and unescaped)
             lines.append(execgen.render([b"KEYS", nme], []))
             lines.append(execgen.render([b"KEYS", b"".join(b"\\" + bytes([c]) for c in nme)], []))
+    # KEYS after histories that create and remove keys by EVERY path (the listing is built from the keyspace's own bookkeeping: a counter or an index that one creating or
+    # removing path forgets shows here, not on keyspaces filled with MSET only - seeded change C17-setnx-count-underflow-keys-panic): SETNX / SET NX / APPEND / INCR /
+    # LPUSH / SADD / HSET / ZADD / XADD / RENAME / the STORE forms create, DEL / RENAME / a pop of the last element / EXPIRE -1 / SMOVE of the last member remove
+    create = [lambda k: [b"SETNX", k, b"1"], lambda k: [b"SET", k, b"1", b"NX"], lambda k: [b"APPEND", k, b"x"], lambda k: [b"INCR", k], lambda k: [b"LPUSH", k, b"e"],
+              lambda k: [b"SADD", k, b"m"], lambda k: [b"HSET", k, b"f", b"v"], lambda k: [b"ZADD", k, b"1", b"m"], lambda k: [b"XADD", k, b"1-1", b"f", b"v"],
+              lambda k: [b"SETEX", k, b"1000", b"v"], lambda k: [b"MSET", k, b"v"], lambda k: [b"HSETNX", k, b"f", b"v"], lambda k: [b"HINCRBY", k, b"f", b"1"]]
+    remove = [lambda k: [b"DEL", k], lambda k: [b"RENAME", k, k + b"-r"], lambda k: [b"EXPIRE", k, b"-1"], lambda k: [b"DEL", k, k]]
+    for _ in range(8 if tier == "quick" else 80):
+        lines.append("R")
+        live = set()
+        for step in range(rng.randint(3, 14)):
+            k = rng.choice([b"lock", b"job", b"a", b"b*", b"c"])
+            if k in live and rng.random() < 0.6:
+                lines.append(execgen.render(rng.choice(remove)(k), []))
+                live.discard(k)
+            else:
+                lines.append(execgen.render(rng.choice(create)(k), []))
+                live.add(k)
+            if rng.random() < 0.5:
+                lines.append(execgen.render([b"KEYS", rng.choice([b"*", b"?*", b"l*", b"*-r", b"[a-c]*"])], []))
+        lines.append(execgen.render([b"KEYS", b"*"], [], full=True))
     return lines
 
 
